@@ -44,6 +44,14 @@ def main():
             f = re.search(r"(\d+) failed", out)
             rec["tests"] = {"rc": rc, "passed": int(m.group(1)) if m else 0, "failed": int(f.group(1)) if f else 0,
                             "wall_s": round(time.time() - t0), "failures": re.findall(r"^FAILED (\S+)", out, re.M)[:10]}
+            # upstream test with an unseeded RNG and an exact-zero assertion: flaky on the unchanged tree as well; re-run it alone
+            FLAKY = "tests/test_compact_encoding.py::test_field_operator_encoding"
+            if rec["tests"]["failures"] == [FLAKY]:
+                for _ in range(3):
+                    rc2, _o = sh(f"/venv/bin/python -m pytest -q -p no:cacheprovider --timeout=900 {FLAKY}", cwd=wt, env=env, timeout=3600)
+                    if rc2 == 0:
+                        rec["tests"].update(passed=rec["tests"]["passed"] + 1, failed=0, flaky_rerun_passed=True)
+                        break
         for c in checks:
             t0 = time.time()
             rc, out = sh(f"./check {c} --tier {tier}", cwd=ROOT, env=dict(ENV, QIB_REPO=str(wt)), timeout=7200)
